@@ -227,7 +227,7 @@ def run_items(items: List[KItem], prop: str, harness_timeout=150, tag='s') -> Di
 
     def cost(it):
         w = weight[it.cls]
-        if it.kind in ('c02', 'c06d', 'c06s', 'c06t', 'c06v', 'c18d', 'c18e'):
+        if it.kind in ('c02', 'c06d', 'c06s', 'c06t', 'c06v', 'c18d', 'c18e', 'c04r'):
             w *= 2
         return w
     for it in sorted(items, key=lambda i: (-cost(i), i.key)):
@@ -294,7 +294,7 @@ def run_and_judge(prop: str, tier: str, seed: int, items: List[KItem], info: dic
         out.inconclusive_item(f'harness crate shard {i} did not build/run: {tail[-700:]}')
     # adaptive bound reduction: one retry of timeouts / errors at a smaller bound
     retry = [it for it in items if it.result is None or it.result.status in ('timeout', 'error', 'oom')]
-    retry = [it for it in retry if not errors and it.cls != 'heavy' and it.kind in ('c01', 'c04', 'c18d', 'c06d', 'c06s', 'c06t')]
+    retry = [it for it in retry if not errors and it.cls != 'heavy' and it.kind in ('c01', 'c04', 'c04r', 'c18d', 'c06d', 'c06s', 'c06t')]
     if retry:
         for it in retry:
             mn = max(it.mdl.min_len(x) for x in [it.type] + it.mdl.descendants(it.type)) if it.type in it.mdl.plans else 0
